@@ -48,6 +48,13 @@ def fresh_name(prefix):
     return '%s!%d' % (prefix, next(_counter))
 
 
+def reset_counter():
+    """names need to be unique within one function's analysis only; restarting makes queries reproducible
+    (and cacheable) regardless of the order in which functions are analysed."""
+    global _counter
+    _counter = itertools.count(1)
+
+
 def I(n):
     return ('i', int(n))
 
